@@ -69,7 +69,14 @@ Proof.
 Qed.
 
 (* ---------- the delimiter-free copier: loop invariant ---------- *)
-Lemma nd_loop_transcribe cfg bsz P0 (HB : P0 + bsz <= E) S : forall base startp endp st rest pis adj st',
+Ltac t_fin :=
+  first [ lia | assumption
+        | match goal with Hm : match_ok _ _ _ _ _ |- _ => solve [destruct Hm as (? & ? & ?); assumption] end
+        | match goal with Hq : _ :: _ = _ :: _ |- _ => solve [inversion Hq; subst; lia] end
+        | (intros ? ? Hs0; inversion Hs0; subst; clear Hs0; first [lia | (intros; split; lia) | (intros; lia)])
+        | (intros; discriminate) | (intros; congruence) | (intros; lia) ].
+
+Lemma nd_loop_transcribe cfg bsz P0 (HB : P0 + bsz <= E) (HM : 1 <= g_minMatch cfg) S : forall base startp endp st rest pis adj st',
   nd_loop cfg bsz S startp endp st = Done (rest, pis, adj, st') ->
   valid_from byte D base S E ->
   base + endp = P0 + bsz ->
@@ -77,29 +84,27 @@ Lemma nd_loop_transcribe cfg bsz P0 (HB : P0 + bsz <= E) S : forall base startp 
   startp <= endp ->
   acc_ok P0 (k_acc st) (P0 + k_ip st) ->
   (forall s r, S = s :: r -> startp < q_ll s + q_ml s) ->
-  (forall s r, S = s :: r -> q_ll s < startp -> bsz < q_ml s /\ g_minMatch cfg <= endp - startp) ->
+  (forall s r, S = s :: r -> q_ll s < startp -> P0 + bsz < E -> bsz < q_ml s /\ g_minMatch cfg <= endp - startp) ->
   exists base',
     valid_from byte D base' rest E /\
     acc_ok P0 (k_acc st') (P0 + k_ip st') /\
     P0 + k_ip st' + adj <= P0 + bsz /\
+    (0 < adj -> P0 + bsz < E) /\
     (rest <> [] -> base' + pis + adj = P0 + bsz) /\
     (forall s r, rest = s :: r -> pis < q_ll s + q_ml s) /\
     (forall s r, rest = s :: r -> q_ll s < pis -> bsz < q_ml s /\ P0 + bsz < E).
 Proof.
   induction S as [|s S IH]; intros base startp endp st rest pis adj st' H Hv Hend Hip Hse Hacc Hin Hmid.
-  - cbn in H. inversion H; subst. exists base. repeat split; auto; try lia; try congruence; intros; discriminate.
+  - cbn in H. inversion H; subst. exists base. repeat split; try t_fin.
   - cbn [nd_loop] in H.
     cbn [valid_from] in Hv. destruct Hv as (Hml & Hmt & Hv').
     pose proof (valid_from_le _ _ Hv') as Hle.
     specialize (Hin s S eq_refl). specialize (Hmid s S eq_refl).
-    set (ll := q_ll s) in *. set (ml := q_ml s) in *.
+    remember (q_ll s) as ll eqn:Hll0. remember (q_ml s) as ml eqn:Hml0.
     destruct (endp =? 0) eqn:E0.
     { (* block exhausted *)
-      apply N.eqb_eq in E0. inversion H; subst.
-      exists base. cbn [valid_from]. repeat split; auto; try lia.
-      - intros s0 r0 Hs. inversion Hs; subst. fold ll ml. lia.
-      - intros s0 r0 Hs Hlt. lia.
-      - intros s0 r0 Hs Hlt. lia. }
+      apply N.eqb_eq in E0. inversion H; subst rest pis adj st'.
+      exists base. cbn [valid_from]. rewrite <- Hll0, <- Hml0. repeat split; try t_fin. }
     rewrite add32_small in H by lia.
     destruct (ll + ml <=? endp) eqn:E1.
     { (* the sequence ends inside the block *)
@@ -139,59 +144,246 @@ Proof.
     apply N.leb_gt in E1.
     destruct (ll <? endp) eqn:E3.
     2:{ (* block ends inside the literals *)
-      apply N.ltb_ge in E3. inversion H; subst.
-      exists base. cbn [valid_from]. repeat split; auto; try lia.
-      - intros s0 r0 Hs. inversion Hs; subst. fold ll ml. lia.
-      - intros s0 r0 Hs Hlt. inversion Hs; subst. fold ll in Hlt. lia.
-      - intros s0 r0 Hs Hlt. inversion Hs; subst. fold ll in Hlt. lia. }
+      apply N.ltb_ge in E3. inversion H; subst rest pis adj st'.
+      exists base. cbn [valid_from]. rewrite <- Hll0, <- Hml0. repeat split; try t_fin. }
     apply N.ltb_lt in E3.
     (* block ends inside the match *)
-    set (ll' := if ll <=? startp then 0 else sub32 ll startp) in *.
+    remember (if ll <=? startp then 0 else sub32 ll startp) as ll' eqn:Hll'0.
     assert (Hll' : ll' = if ll <=? startp then 0 else ll - startp).
-    { unfold ll'. destruct (ll <=? startp) eqn:E2; [reflexivity|]. apply N.leb_gt in E2. apply sub32_small; lia. }
+    { rewrite Hll'0. destruct (ll <=? startp) eqn:E2; [reflexivity|]. apply N.leb_gt in E2. apply sub32_small; lia. }
     assert (Hll'le : ll' <= endp - startp /\ startp + ll' = N.max startp ll).
     { rewrite Hll'. destruct (ll <=? startp) eqn:E2; [apply N.leb_le in E2|apply N.leb_gt in E2]; lia. }
     rewrite (sub32_small endp startp) in H by lia.
     rewrite (sub32_small (endp - startp) ll') in H by lia.
-    set (first := endp - startp - ll') in *.
+    remember (endp - startp - ll') as first eqn:Hfirst.
     destruct ((bsz <? ml) && (g_minMatch cfg <=? first)) eqn:E4.
     + (* split the match *)
       apply andb_true_iff in E4. destruct E4 as [E4a E4b]. apply N.ltb_lt in E4a. apply N.leb_le in E4b.
       rewrite (add32_small ml ll) in H by lia.
       rewrite (sub32_small (ml + ll) endp) in H by lia.
-      set (second := ml + ll - endp) in *.
-      set (adj0 := if second <? g_minMatch cfg then sub32 (g_minMatch cfg) second else 0) in *.
+      remember (ml + ll - endp) as second eqn:Hsecond.
+      remember (if second <? g_minMatch cfg then sub32 (g_minMatch cfg) second else 0) as adj0 eqn:Hadj0.
       assert (Hadj : adj0 = if second <? g_minMatch cfg then g_minMatch cfg - second else 0).
-      { unfold adj0. destruct (second <? g_minMatch cfg) eqn:E5; [|reflexivity]. apply N.ltb_lt in E5. apply sub32_small; lia. }
+      { rewrite Hadj0. destruct (second <? g_minMatch cfg) eqn:E5; [|reflexivity]. apply N.ltb_lt in E5. apply sub32_small; lia. }
       assert (Hadjlt : adj0 < first /\ adj0 <= endp).
-      { rewrite Hadj. destruct (second <? g_minMatch cfg) eqn:E5; [apply N.ltb_lt in E5|]; unfold second in *; lia. }
+      { rewrite Hadj. destruct (second <? g_minMatch cfg) eqn:E5; [apply N.ltb_lt in E5|]; lia. }
       rewrite (sub32_small first adj0) in H by lia.
       destruct (store_seq cfg true bsz (q_off s) ll' (first - adj0) st) as [st1| |] eqn:Es; cbn [obind] in H; try discriminate.
       rewrite (sub32_small endp adj0) in H by lia.
       inversion H; subst rest pis adj st'. clear H.
       assert (Hp : match_ok byte D (P0 + k_ip st + ll') (first - adj0) (q_off s)).
       { replace (P0 + k_ip st + ll') with (base + ll + (N.max startp ll - ll)) by lia.
-        apply match_ok_sub with (ml := ml); [exact Hmt|]. unfold first. lia. }
-      destruct (store_piece _ _ _ _ _ _ _ P0 Es Hacc ltac:(lia) ltac:(unfold first; lia) Hp) as [Ha1 Hi1].
-      exists base. cbn [valid_from]. repeat split; auto.
-      * rewrite Hi1. unfold first. lia.
-      * intros _. lia.
-      * intros s0 r0 Hs. inversion Hs; subst. fold ll ml. lia.
-      * intros s0 r0 Hs Hlt. inversion Hs; subst. fold ml. exact E4a.
-      * intros s0 r0 Hs Hlt. lia.
+        apply match_ok_sub with (ml := ml); [exact Hmt|]. lia. }
+      destruct (store_piece _ _ _ _ _ _ _ P0 Es Hacc ltac:(lia) ltac:(lia) Hp) as [Ha1 Hi1].
+      exists base. cbn [valid_from]. rewrite <- Hll0, <- Hml0. repeat split; try t_fin.
     + (* do not split: stop before the match *)
       inversion H; subst rest pis adj st'. clear H.
       assert (Hsl : startp <= ll).
       { destruct (N.le_gt_cases startp ll) as [Hc|Hc]; [exact Hc|exfalso].
-        destruct (Hmid Hc) as [M1 M2].
+        destruct (Hmid Hc ltac:(lia)) as [M1 M2].
         assert (E2 : (ll <=? startp) = true) by (apply N.leb_le; lia).
-        assert (Hf : first = endp - startp) by (unfold first; rewrite Hll', E2; lia).
+        assert (Hf : first = endp - startp) by (rewrite Hfirst, Hll', E2; lia).
         apply andb_false_iff in E4. destruct E4 as [E4|E4]; [apply N.ltb_ge in E4; lia|apply N.leb_gt in E4; lia]. }
       rewrite (sub32_small endp ll) by lia.
-      exists base. cbn [valid_from]. repeat split; auto; try lia.
-      * intros s0 r0 Hs. inversion Hs; subst. fold ll ml. lia.
-      * intros s0 r0 Hs Hlt. inversion Hs; subst. fold ll in Hlt. lia.
-      * intros s0 r0 Hs Hlt. inversion Hs; subst. fold ll in Hlt. lia.
+      exists base. cbn [valid_from]. rewrite <- Hll0, <- Hml0. repeat split; try t_fin.
+Qed.
+
+(* ---------- one block of the delimiter-free copier ---------- *)
+(* state between two blocks: [base] = source position of the first byte of the head sequence, P = base + pis *)
+Definition nd_state (bsMax : N) (cfg : scfg) (P : N) (S : list zseq) (pis : N) : Prop :=
+  S = [] \/
+  exists base, valid_from byte D base S E /\ P = base + pis /\
+               (forall s r, S = s :: r -> pis < q_ll s + q_ml s) /\
+               (forall s r, S = s :: r -> q_ll s < pis -> bsMax < q_ml s).
+
+Lemma copy_no_delim_transcribe cfg bsMax bsz P S pis rep pos rest pis' br :
+  1 <= g_minMatch cfg -> g_minMatch cfg <= bsMax ->
+  P + bsz <= E -> (P + bsz < E -> bsz = bsMax) ->
+  nd_state bsMax cfg P S pis ->
+  copy_no_delim cfg bsz S pis rep pos = Done (rest, pis', br) ->
+  stored_ok byte D P (r_seqs br) /\
+  stored_end P (r_seqs br) + r_lastLL br = P + (bsz - r_adj br) /\
+  r_adj br <= bsz /\ (0 < r_adj br -> P + bsz < E) /\
+  nd_state bsMax cfg (P + (bsz - r_adj br)) rest pis'.
+Proof.
+  intros HM HMb HB Hfull Hst H. unfold copy_no_delim in H.
+  match type of H with context [nd_loop ?a ?b ?c ?d ?e ?f] => destruct (nd_loop a b c d e f) as [[[[rest0 p0] adj] st]| |] eqn:El end;
+    cbn [obind] in H; try discriminate.
+  destruct (g_fixed cfg && (k_ip st <=? bsz) && (bsz - k_ip st <? adj)); [discriminate|].
+  destruct (bsz <? adj) eqn:E7; [discriminate|]. destruct (bsz - adj <? k_ip st) eqn:E8; [discriminate|].
+  apply N.ltb_ge in E7, E8.
+  inversion H; subst rest pis' br; cbn [r_seqs r_lastLL r_adj]. clear H. rewrite rev'_rev.
+  destruct Hst as [Hnil|(base & Hv & HP & Hin & Hmid)].
+  - subst S. cbn in El. inversion El; subst. cbn. repeat split; try lia. left; reflexivity.
+  - assert (Hpb : pis + bsz < M32) by lia.
+    rewrite add32_small in El by exact Hpb.
+    destruct (nd_loop_transcribe cfg bsz P HB HM S base pis (pis + bsz) _ _ _ _ _ El Hv) as
+        (base' & Hv' & Hacc & Hle & Hadj & Hnext & Hin' & Hmid'); cbn [k_ip k_acc]; try lia.
+    + rewrite N.add_0_r. constructor.
+    + exact Hin.
+    + intros s r Hs Hlt Hnl. specialize (Hmid s r Hs Hlt). rewrite (Hfull Hnl). split; [exact Hmid|]. rewrite <- (Hfull Hnl). lia.
+    + apply acc_ok_stored in Hacc. destruct Hacc as [Hso Hse].
+      repeat split; try assumption; try lia.
+      destruct rest0 as [|s0 r0]; [left; reflexivity|right].
+      exists base'. specialize (Hnext ltac:(discriminate)).
+      split; [exact Hv'|]. split; [lia|]. split; [exact Hin'|].
+      intros s r Hs Hlt. destruct (Hmid' s r Hs Hlt) as [M1 M2]. rewrite <- (Hfull M2). exact M1.
+Qed.
+
+(* ---------- the block loop, delimiter-free mode ---------- *)
+Lemma cs_loop_transcribe_nd cfg ers bsMax : forall fuel S pis pos P remaining rep dec blks,
+  1 <= g_minMatch cfg -> g_minMatch cfg <= bsMax ->
+  P + remaining = E -> nd_state bsMax cfg P S pis ->
+  cs_loop fuel cfg false ers bsMax S pis pos remaining rep dec = Done blks ->
+  blocks_valid byte D P blks E.
+Proof.
+  induction fuel as [|f IH]; intros S pis pos P remaining rep dec blks HM HMb HP Hst H.
+  - cbn in H. destruct (remaining =? 0) eqn:E0; [|discriminate]. apply N.eqb_eq in E0. inversion H; subst. cbn. lia.
+  - cbn [cs_loop] in H. destruct (remaining =? 0) eqn:E0.
+    { apply N.eqb_eq in E0. inversion H; subst. cbn. lia. }
+    apply N.eqb_neq in E0.
+    cbn [determine_block_size obind] in H.
+    set (bs := if remaining <=? bsMax then remaining else bsMax) in *.
+    assert (Hbs : bs <= remaining /\ (bs < remaining -> bs = bsMax)).
+    { unfold bs. destruct (remaining <=? bsMax) eqn:Er; [apply N.leb_le in Er|apply N.leb_gt in Er]; lia. }
+    destruct (copy_no_delim cfg bs S pis rep pos) as [[[rest pis'] br]| |] eqn:Ec; cbn [obind] in H; try discriminate.
+    destruct (copy_no_delim_transcribe cfg bsMax bs P S pis rep pos rest pis' br HM HMb ltac:(lia) ltac:(intros; apply Hbs; lia) Hst Ec)
+      as (Hso & Hse & Hadj & Hadj0 & Hst').
+    destruct (bs - r_adj br <? TINY).
+    + match type of H with context [cs_loop ?a ?b ?c ?d ?e ?g ?h ?i ?j ?k ?l] =>
+        destruct (cs_loop a b c d e g h i j k l) as [rest'| |] eqn:Er end; cbn [obind] in H; try discriminate.
+      inversion H; subst blks. cbn [blocks_valid b_seqs b_lastLL b_size]. repeat split; try assumption.
+      eapply IH; [exact HM|exact HMb| |exact Hst'|exact Er]. lia.
+    + destruct (bs =? remaining) eqn:El.
+      * apply N.eqb_eq in El. inversion H; subst blks. cbn [blocks_valid b_seqs b_lastLL b_size]. repeat split; try assumption.
+        destruct (N.eq_0_gt_0_cases (r_adj br)) as [Hz|Hz]; [lia|]. specialize (Hadj0 Hz). lia.
+      * match type of H with context [cs_loop ?a ?b ?c ?d ?e ?g ?h ?i ?j ?k ?l] =>
+          destruct (cs_loop a b c d e g h i j k l) as [rest'| |] eqn:Er end; cbn [obind] in H; try discriminate.
+        inversion H; subst blks. cbn [blocks_valid b_seqs b_lastLL b_size]. repeat split; try assumption.
+        eapply IH; [exact HM|exact HMb| |exact Hst'|exact Er]. lia.
+Qed.
+
+(* ---------- explicit delimiters ---------- *)
+(* a list with delimiters is a valid parse: delimiters carry literals only *)
+Fixpoint valid_from_ex (pos : N) (S : list zseq) : Prop :=
+  match S with
+  | [] => pos <= E
+  | s :: r => if is_delim s then valid_from_ex (pos + q_ll s) r
+              else 1 <= q_ml s /\ match_ok byte D (pos + q_ll s) (q_ml s) (q_off s) /\
+                   valid_from_ex (pos + q_ll s + q_ml s) r
+  end.
+
+Lemma valid_from_ex_le S : forall pos, valid_from_ex pos S -> pos <= E.
+Proof.
+  induction S as [|s S IH]; intros pos H; cbn in H; [exact H|].
+  destruct (is_delim s); [apply IH in H; lia|]. destruct H as (_ & _ & H). apply IH in H. lia.
+Qed.
+
+Lemma ex_loop_transcribe cfg ers bsz P0 S : forall st offs rest st' offs',
+  ex_loop cfg ers bsz S st offs = Done (rest, st', offs') ->
+  valid_from_ex (P0 + k_ip st) S -> acc_ok P0 (k_acc st) (P0 + k_ip st) ->
+  valid_from_ex (P0 + k_ip st') rest /\ acc_ok P0 (k_acc st') (P0 + k_ip st').
+Proof.
+  induction S as [|s S IH]; intros st offs rest st' offs' H Hv Hacc.
+  - cbn in H. inversion H; subst. auto.
+  - cbn [ex_loop] in H. cbn [valid_from_ex] in Hv. destruct (is_delim s) eqn:Ed.
+    + inversion H; subst. split; [|exact Hacc]. cbn [valid_from_ex]. rewrite Ed. exact Hv.
+    + destruct Hv as (Hml & Hmt & Hv'). pose proof (valid_from_ex_le _ _ Hv') as Hle.
+      destruct (store_seq cfg ers bsz (q_off s) (q_ll s) (q_ml s) st) as [st1| |] eqn:Es; cbn [obind] in H; try discriminate.
+      assert (Hpiece : acc_ok P0 (k_acc st1) (P0 + k_ip st1) /\ k_ip st1 = k_ip st + q_ll s + q_ml s).
+      { apply store_seq_done in Es. destruct Es as (Hip & _ & _ & _ & _ & Hacc1).
+        rewrite add32_small in Hip by lia.
+        assert (Hip' : k_ip st1 = k_ip st + q_ll s + q_ml s) by lia. split; [|exact Hip'].
+        rewrite Hacc1, Hip'. replace (P0 + (k_ip st + q_ll s + q_ml s)) with (P0 + k_ip st + q_ll s + q_ml s) by lia.
+        set (t := {| t_ll := q_ll s; t_ml := q_ml s; t_ob := fst (code_offset ers (q_off s) (q_ll s) (k_rep st)); t_raw := q_off s |}).
+        change (acc_ok P0 (t :: k_acc st) (P0 + k_ip st + t_ll t + t_ml t)).
+        apply ao_cons; cbn; assumption. }
+      destruct Hpiece as [Ha1 Hi1]. destruct (bump_fields st1) as (Ea & _ & Ei & _).
+      eapply IH; [exact H| |].
+      * rewrite Ei, Hi1. replace (P0 + (k_ip st + q_ll s + q_ml s)) with (P0 + k_ip st + q_ll s + q_ml s) by lia. exact Hv'.
+      * rewrite Ea, Ei. exact Ha1.
+Qed.
+
+Lemma copy_explicit_transcribe cfg ers bsz P S rep pos rest br :
+  copy_explicit cfg ers bsz S rep pos = Done (rest, br) -> valid_from_ex P S ->
+  stored_ok byte D P (r_seqs br) /\ stored_end P (r_seqs br) + r_lastLL br = P + bsz /\ r_adj br = 0 /\
+  valid_from_ex (P + bsz) rest.
+Proof.
+  unfold copy_explicit. intros H Hv.
+  match type of H with context [ex_loop ?a ?b ?c ?d ?e ?f] => destruct (ex_loop a b c d e f) as [[[rest0 st] offs]| |] eqn:El end;
+    cbn [obind] in H; try discriminate.
+  destruct rest0 as [|d rest']; [discriminate|].
+  destruct (negb (q_ll d =? 0) && (bsz <? k_ip st + q_ll d)); [discriminate|].
+  destruct (negb (k_ip st + q_ll d =? bsz)) eqn:Eq; [discriminate|]. apply negb_false_iff, N.eqb_eq in Eq.
+  inversion H; subst rest br; cbn [r_seqs r_lastLL r_adj]. rewrite rev'_rev.
+  destruct (ex_loop_transcribe _ _ _ P _ _ _ _ _ _ El) as [Hv' Hacc]; cbn [k_ip k_acc].
+  - rewrite N.add_0_r. exact Hv.
+  - rewrite N.add_0_r. constructor.
+  - apply acc_ok_stored in Hacc. destruct Hacc as [Hso Hse].
+    repeat split; try assumption; try lia.
+    assert (Hd : is_delim d = true).
+    { clear -El. revert El. generalize (@nil N). generalize {| k_rep := rep; k_pos := pos; k_ip := 0; k_cnt := 0; k_acc := [] |}.
+      induction S as [|s S IHS]; intros st0 o0 El; cbn [ex_loop] in El; [discriminate|].
+      destruct (is_delim s) eqn:Ed; [inversion El; subst; exact Ed|].
+      destruct (store_seq cfg ers bsz (q_off s) (q_ll s) (q_ml s) st0); cbn [obind] in El; try discriminate.
+      eapply IHS; exact El. }
+    cbn [valid_from_ex] in Hv'. rewrite Hd in Hv'. replace (P + bsz) with (P + k_ip st + q_ll d) by lia. exact Hv'.
+Qed.
+
+Lemma cs_loop_transcribe_ex cfg ers bsMax : forall fuel S pis pos P remaining rep dec blks,
+  P + remaining = E -> valid_from_ex P S ->
+  cs_loop fuel cfg true ers bsMax S pis pos remaining rep dec = Done blks ->
+  blocks_valid byte D P blks E.
+Proof.
+  induction fuel as [|f IH]; intros S pis pos P remaining rep dec blks HP Hv H.
+  - cbn in H. destruct (remaining =? 0) eqn:E0; [|discriminate]. apply N.eqb_eq in E0. inversion H; subst. cbn. lia.
+  - cbn [cs_loop] in H. destruct (remaining =? 0) eqn:E0.
+    { apply N.eqb_eq in E0. inversion H; subst. cbn. lia. }
+    destruct (determine_block_size true bsMax remaining S) as [bs| |] eqn:Ed; cbn [obind] in H; try discriminate.
+    destruct (determine_block_size_le _ _ _ _ _ Ed) as [_ Hbr].
+    destruct (copy_explicit cfg ers bs S rep pos) as [[rest br]| |] eqn:Ec; cbn [obind fst snd] in H; try discriminate.
+    destruct (copy_explicit_transcribe _ _ _ P _ _ _ _ _ Ec Hv) as (Hso & Hse & Hadj & Hv').
+    rewrite Hadj, N.sub_0_r in H.
+    destruct (bs <? TINY).
+    + match type of H with context [cs_loop ?a ?b ?c ?d ?e ?g ?h ?i ?j ?k ?l] =>
+        destruct (cs_loop a b c d e g h i j k l) as [rest'| |] eqn:Er end; cbn [obind] in H; try discriminate.
+      inversion H; subst blks. cbn [blocks_valid b_seqs b_lastLL b_size]. repeat split; try assumption.
+      eapply IH; [|exact Hv'|exact Er]. lia.
+    + destruct (bs =? remaining) eqn:El.
+      * apply N.eqb_eq in El. inversion H; subst blks. cbn [blocks_valid b_seqs b_lastLL b_size]. repeat split; try assumption. lia.
+      * match type of H with context [cs_loop ?a ?b ?c ?d ?e ?g ?h ?i ?j ?k ?l] =>
+          destruct (cs_loop a b c d e g h i j k l) as [rest'| |] eqn:Er end; cbn [obind] in H; try discriminate.
+        inversion H; subst blks. cbn [blocks_valid b_seqs b_lastLL b_size]. repeat split; try assumption.
+        eapply IH; [|exact Hv'|exact Er]. lia.
 Qed.
 
 End Transcribe.
+
+(* ---------- the theorems ---------- *)
+(* Delimiter-free mode: for every source (a history function), every valid parse S of it (valid_from from position 0),
+   every block size >= minMatch, both variants of the model, every list of commit decisions: if the block loop returns
+   blocks, they tile [0, E) and each block's seqStore is a valid parse of its slice w.r.t. the whole history
+   (a split match keeps its offset; the halves are sub-ranges of the original match). *)
+Theorem transcription_preserves_content_nodelim byte D E cfg ers bsMax S rep dec blks :
+  E < M32 -> 1 <= g_minMatch cfg -> g_minMatch cfg <= bsMax ->
+  valid_from byte D 0 S E ->
+  compress_sequences cfg false ers bsMax E S rep dec = Done blks ->
+  blocks_valid byte D 0 blks E.
+Proof.
+  intros HE HM HMb Hv H. unfold compress_sequences in H.
+  eapply (cs_loop_transcribe_nd byte D E HE); [exact HM|exact HMb| | |exact H].
+  - lia.
+  - destruct S as [|s0 r0]; [left; reflexivity|right]. exists 0.
+    split; [exact Hv|]. split; [lia|]. split.
+    + intros s r Hs. inversion Hs; subst. cbn in Hv. lia.
+    + intros s r Hs Hlt. lia.
+Qed.
+
+Theorem transcription_preserves_content_explicit byte D E cfg ers bsMax S rep dec blks :
+  E < M32 -> valid_from_ex byte D E 0 S ->
+  compress_sequences cfg true ers bsMax E S rep dec = Done blks ->
+  blocks_valid byte D 0 blks E.
+Proof.
+  intros HE Hv H. unfold compress_sequences in H.
+  eapply (cs_loop_transcribe_ex byte D E HE); [|exact Hv|exact H]. lia.
+Qed.
